@@ -40,7 +40,11 @@ RULE = ("(a) round trips: real MultipartWriter (subtypes mixed/related/form-data
         "pre-fed) -> real StreamReader + MultipartReader driven by a script of read / read_chunk(sizes cycling, >= boundary+2) / readline / "
         "release / skip / partial-read-then-release, descending into nested readers or leaving them to the parent; (b) the same bodies with 1-3 "
         "mutations (truncate, delete, insert structural junk, replace a byte, duplicate a region; ASCII only) under small and default limits "
-        "(max_field_size, max_headers, client_max_size, stream limit). Every case is compared event by event (headers, every chunk/line handed "
+        "(max_field_size, max_headers, client_max_size, stream limit); (c) compression bombs: gzip/deflate Content-Encoding parts of a "
+        "multipart/mixed body, wire size below client_max_size, decoded size limit + 5..40 decode chunks (deflate ratios ~100..1000) and a control "
+        "just under the limit, read via read(decode=True)/text()/json()/form(): the bytes yielded by decode_iter before the size error must "
+        "stay <= limit + 2**18 (one decode chunk = DEFAULT_CHUNK_SIZE = max_decompress_size) - implementation-only oracle, not modelled "
+        "(form-data/post() never content-decodes, so it has no decoded-size limit to test). Every case is compared event by event (headers, every chunk/line handed "
         "out, error class) with the Lean model, and judged by the direct oracle. Distinct by boundary+parts+cuts+script.")
 TRUSTED_BASE = [
     "zlib and binascii.b2a_qp are not modelled: the compressor outputs and quoted-printable encodings are oracle columns of the writer model",
@@ -525,8 +529,11 @@ def _lf_prefix(sps, b):
     for sp in sps:
         if sp.nested:
             if _lf_prefix(sp.nested[2], sp.nested[0]): return True
-        elif (b"\n--" + b.encode()) in b"\n" + sp.content and (b"\r\n--" + b.encode()) not in b"\r\n" + sp.content:
-            return True
+        else:
+            # the readline API sees the *encoded* body (b2a_qp soft line breaks are "=\\n": a bare LF)
+            for body in (sp.content, encoded_body(sp.content, sp.enc, sp.te)):
+                if (b"\n--" + b.encode()) in b"\n" + body and (b"\r\n--" + b.encode()) not in b"\r\n" + body:
+                    return True
     return False
 
 
@@ -591,7 +598,7 @@ def gen_roundtrip_case(rng, small=False):
         for sp in sps:
             if sp.nested:
                 if lf_prefix(sp.nested[2], sp.nested[0]): return True
-            elif (b"\n--" + b.encode()) in b"\n" + sp.content:
+            elif (b"\n--" + b.encode()) in b"\n" + sp.content or (b"\n--" + b.encode()) in b"\n" + encoded_body(sp.content, sp.enc, sp.te):
                 return True
         return False
     # (the readline API on content with a bare-LF line that starts with the boundary is a recorded finding,
@@ -822,6 +829,8 @@ def run_case(ctx, loop, case, lines):
         one_limit(ctx, loop, case)
     elif k == "post":
         one_post(ctx, loop, case)
+    elif k == "bomb":
+        one_bomb(ctx, loop, case)
 
 
 # ------------------------------------------------------------------------------ limits are enforced while reading
@@ -1023,12 +1032,130 @@ def check_mechanisms(ctx, loop):
     flush_compare(ctx, lines)
 
 
+# ------------------------------------------------------------------------------ decoded-size limit (compression bombs)
+DECODE_SLACK = 2 ** 18    # one decode chunk: helpers.DEFAULT_CHUNK_SIZE = BodyPartReader max_decompress_size (asserted at run time)
+
+
+def bomb_content(api, n, ratio_class, seed):
+    """about `n` bytes (never more) that deflate by roughly the wanted ratio: a tiled unit with a random byte every `gap` bytes"""
+    import random
+    r = random.Random(seed)
+    unit = {"read": b"\x00", "text": b"a", "json": b"0,", "form": b"a=1&"}[api]
+    m = (n - 3) // len(unit) if api == "json" else n // len(unit)
+    body = bytearray(unit * m)
+    gap = {"1000": 0, "300": 1500, "100": 400}[ratio_class]
+    if gap:
+        for i in range(gap, len(body), gap):
+            if api == "read":
+                body[i] = r.randrange(1, 256)
+            elif api == "text":
+                body[i] = r.choice(b"bcdefghij")
+            elif body[i:i + 1] in (b"0", b"1"):
+                body[i] = r.choice(b"23456789")
+    if api == "json":
+        body = bytearray(b"[" + bytes(body) + b"0]")
+    return bytes(body)
+
+
+def one_bomb(ctx, loop, case):
+    """a gzip/deflate part of a non-form-data multipart whose wire size is below client_max_size but which inflates far
+    beyond it, read through an API that decodes: the size error must fire after at most limit + one decode chunk has
+    been inflated (counted at decode_iter, the single place decoded bytes come from) - not after inflating everything"""
+    from aiohttp import MultipartWriter, payload, helpers
+    from aiohttp.multipart import MultipartReader, BodyPartReader
+    if helpers.DEFAULT_CHUNK_SIZE != DECODE_SLACK:
+        ctx.notes.append(f"DEFAULT_CHUNK_SIZE is {helpers.DEFAULT_CHUNK_SIZE}, the decoded-size oracle assumes {DECODE_SLACK}")
+    slack = max(DECODE_SLACK, helpers.DEFAULT_CHUNK_SIZE)
+    api, enc, limit = case["api"], case["enc"], case["limit"]
+    content = bomb_content(api, case["n"], case["ratio_class"], case["seed"])
+    n = len(content)
+    mw = MultipartWriter("mixed", boundary="bomb")
+    ctype = {"read": "application/octet-stream", "text": "text/plain; charset=utf-8", "json": "application/json",
+             "form": "application/x-www-form-urlencoded"}[api]
+    mw.append_payload(payload.BytesPayload(content, headers=CIMultiDict({"Content-Encoding": enc}), content_type=ctype))
+    wire = write_all(loop, mw)
+    ratio = len(content) / max(1, len(wire))
+    ctx.hit(f"bomb:ratio~{'1000+' if ratio >= 600 else '200-600' if ratio >= 200 else '50-200' if ratio >= 50 else '<50'}")
+    if len(wire) >= limit and n > limit:
+        ctx.hit("bomb:skipped-wire-not-below-limit"); return
+    seg = case["seg"]
+    segs = [wire[i:i + seg] for i in range(0, len(wire), seg)]
+    sr = io19.make_stream(loop, 2 ** 16, 16 * len(wire) + 4096)
+    rd = MultipartReader({"Content-Type": 'multipart/mixed; boundary="bomb"'}, sr, client_max_size=limit, max_size_error_cls=io19.SizeErr)
+    out = {"inflated": 0, "peak_piece": 0}
+
+    async def main():
+        part = await rd.next()
+        assert isinstance(part, BodyPartReader)
+        orig = part.decode_iter
+
+        async def counting(data):
+            async for d in orig(data):
+                out["inflated"] += len(d); out["peak_piece"] = max(out["peak_piece"], len(d))
+                yield d
+        part.decode_iter = counting
+        try:
+            if api == "read":
+                out["value"] = bytes(await part.read(decode=True))
+            elif api == "text":
+                out["value"] = (await part.text()).encode()
+            elif api == "json":
+                out["value"] = json.dumps(await part.json(), separators=(",", ":")).encode()
+            else:
+                out["value"] = "&".join(f"{k}={v}" for k, v in await part.form()).encode() + b"&"
+            out["res"] = "ok"
+        except io19.SizeErr:
+            out["res"] = "E_SIZE"
+        except io19.StepLimit:
+            out["res"] = "LOOP"
+        except Exception as e:
+            out["res"] = f"E_OTHER({type(e).__name__})"
+
+    loop.run_until_complete(io19.lazily_fed(sr, segs, 0, False, main()))
+    ctx.hit(f"bomb:{api}:{enc}:{out['res']}")
+    info = f"{enc} part, {len(wire)} bytes on the wire, {n} decoded (ratio {ratio:.0f}), client_max_size={limit}, api={api}"
+    if n > limit:
+        if out["res"] != "E_SIZE":
+            ctx.violation(f"C19/limits/decoded-size/not-enforced/{api}", case, f"{info}: ended with {out['res']}")
+        elif out["inflated"] > limit + slack:
+            ctx.violation("C19/limits/decoded-size/enforced-only-after-inflating", case,
+                          f"{info}: {out['inflated']} bytes had been inflated when the size error was raised; "
+                          f"allowed limit + one decode chunk = {limit + slack}")
+    else:
+        exp = content if api != "form" else content
+        if out["res"] != "ok":
+            ctx.violation(f"C19/limits/decoded-size/false-positive/{api}", case, f"{info}: ended with {out['res']}")
+        elif api in ("read", "text") and out["value"] != content:
+            ctx.violation(f"C19/roundtrip/content-differs/decode=True/{enc}", case, f"{info}: decoded value differs from what was written")
+    if out["peak_piece"] > slack:
+        ctx.violation("C19/limits/decoded-size/decode-chunk-exceeds-max_decompress_size", case,
+                      f"{info}: decode_iter yielded a piece of {out['peak_piece']} bytes (> {slack})")
+
+
+def check_bombs(ctx, loop):
+    rng = ctx.rng
+    k = 0
+    for api in ("read", "text", "json", "form"):
+        for enc in ("gzip", "deflate"):
+            for ratio_class in (("1000", "100") if ctx.quick else ("1000", "300", "100")):
+                for limit in ((2 ** 19,) if ctx.quick else (2 ** 20, 2 ** 16 * 5)):
+                    k += 1
+                    # far over the limit (a late check would inflate all of it), and one control just under the limit
+                    n_over = limit + (5 if ctx.quick else rng.choice([6, 8, 12, 40])) * DECODE_SLACK + rng.randrange(1000)
+                    for n in (n_over, limit - rng.randrange(1, 5000)):
+                        case = {"kind": "bomb", "api": api, "enc": enc, "ratio_class": ratio_class, "limit": limit, "n": n,
+                                "seg": rng.choice([4096, 8192, 100000]), "seed": rng.randrange(2 ** 32)}
+                        one_bomb(ctx, loop, case)
+                        ctx.case(("bomb", api, enc, ratio_class, limit, n, case["seg"]),
+                                 sample={"bomb": [api, enc, ratio_class, limit, n]} if k % 7 == 0 else None)
+
+
 def check(ctx):
     import time
     loop = asyncio.new_event_loop()
     asyncio.set_event_loop(loop)
     try:
-        for f in (check_probes, check_mechanisms, check_roundtrips, check_mutations, check_limits, check_posts):
+        for f in (check_probes, check_mechanisms, check_roundtrips, check_mutations, check_limits, check_bombs, check_posts):
             t = time.time()
             f(ctx, loop)
             ctx.extra.setdefault("section_seconds", {})[f.__name__] = round(time.time() - t, 1)
